@@ -15,7 +15,8 @@ TRUSTED = [
 RULE = ("histories over 2-4 files: every history of <= 3 (quick) / <= 4 (thorough) operations drawn from {edit file to one of 3 "
         "text variants keeping the root, edit-and-make-root, switch root}, plus random histories of 5-10 operations; text variants "
         "add/remove include statements and switch between clean and faulty declarations; a history is non-trivial if it changes "
-        "the include structure or the root at least once after the first root selection")
+        "the include structure or the root at least once after the first root selection; every second history is queried in full "
+        "after each operation, so that the derived queries are recomputed incrementally")
 FINISH = dict(level="proof", trusted_base=TRUSTED, rule=RULE)
 FILES = ["/w/a.td", "/w/b.td", "/w/c.td", "/w/d.td"]
 
@@ -152,7 +153,8 @@ def run(ck):
                     root = i
                 if root is not None:
                     mops.append("r:%d" % root)
-        lines.append("hist " + json.dumps({"ops": ops}))
+        # every second history is queried after each operation (the derived queries are then recomputed incrementally)
+        lines.append("hist " + json.dumps({"ops": ops, "each": len(lines) % 2 == 0}))
         mlines.append("host %s %s" % (";".join((",".join(str(x) for x in incs_of[k]) or ".") for k in range(len(texts))) or ".", ";".join(mops)))
         metas.append(h)
     a = core.impl(lines, timeout=300, tag="h07")
